@@ -1923,6 +1923,12 @@ class Analysis:
                 vn = T.node(val)
                 if (vn[0] == 'bool' and not vn[1]) or (vn[0] == 'int' and vn[1] == 0):
                     out.append((n, st))
+                elif vn[0] not in ('bool', 'int'):
+                    # a computed verdict (`return check(...)`): this exit refuses whenever the value is false, unless the
+                    # path already knows it to be true
+                    tv = self.conj_facts(self.truth(val, True), full=True)
+                    if not (tv and all(g in st.facts for g in tv)):
+                        out.append((n, st))
         return out
 
     def all_events(self, kind=None):
